@@ -269,3 +269,36 @@ func (a *Analysis) WitnessForEffect(e *Effect, t *Object) []string {
 	}
 	return nil
 }
+
+// SubIfExists returns the sub-object of o for key, or nil.
+func (a *Analysis) SubIfExists(o *Object, key string) *Object {
+	if o == nil || o.subs == nil {
+		return nil
+	}
+	return o.subs[key]
+}
+
+// FieldKey is the sub-object key of struct field i.
+func FieldKey(i int) string { return fieldKey(i) }
+
+// Under reports whether o is anc or a (transitive) sub-object of anc.
+func Under(o, anc *Object) bool {
+	for x := o; x != nil; x = x.Parent {
+		if x == anc {
+			return true
+		}
+	}
+	return false
+}
+
+// FreeNodes exposes the free-variable nodes of a closure body.
+func (a *Analysis) FreeNodes(fn *ssa.Function) []*Node { return a.freeNodes(fn) }
+
+// AddrTargets returns the objects of the address operands of an effect (before deep expansion).
+func (e *Effect) AddrObjects() []*Object {
+	var out []*Object
+	for _, n := range e.addr {
+		out = append(out, n.Pts()...)
+	}
+	return out
+}
